@@ -1572,3 +1572,37 @@ _DLV_HELPER_BAD = """    pub async fn deliver(&self, pid: &ExternalPid, msg: cra
 """ + _DLV_ANCHOR
 benign('benign-c19-deliver-helper', 'C19', 'crates/edp_node/src/node.rs', _DLV_ARM_OLD, _DLV_ARM_NEW, more=[('crates/edp_node/src/registry.rs', _DLV_ANCHOR, _DLV_HELPER_GOOD)])
 canary('c19-deliver-helper-holds-table', 'C19', 'crates/edp_node/src/node.rs', _DLV_ARM_OLD, _DLV_ARM_NEW, 'rwlock-guard-across-await', more=[('crates/edp_node/src/registry.rs', _DLV_ANCHOR, _DLV_HELPER_BAD)])
+
+# ---- round 10: state that outlives the call -------------------------------------------------------------------------
+_ENC_OLD = """    let mut buf = BytesMut::with_capacity(capacity);
+    buf.put_u8(VERSION);
+    encode_term(&mut buf, term)?;
+    Ok(buf.to_vec())
+}
+
+pub fn encode_to_writer"""
+_TL = """thread_local! {
+    static ENCODE_BUF: std::cell::RefCell<BytesMut> = std::cell::RefCell::new(BytesMut::new());
+}
+
+pub fn encode_to_writer"""
+benign('benign-c20-thread-local-buffer-emptied-first', 'C20', ENCF, _ENC_OLD, """    ENCODE_BUF.with_borrow_mut(|buf| {
+        buf.clear();
+        buf.reserve(capacity);
+        buf.put_u8(VERSION);
+        encode_term(buf, term)?;
+        Ok(buf.to_vec())
+    })
+}
+
+""" + _TL)
+canary('c20-thread-local-buffer-emptied-on-success-only', 'C20', ENCF, _ENC_OLD, """    ENCODE_BUF.with_borrow_mut(|buf| {
+        buf.reserve(capacity);
+        buf.put_u8(VERSION);
+        encode_term(buf, term)?;
+        Ok(buf.split().to_vec())
+    })
+}
+
+""" + _TL, 'thread-local-buffer-not-emptied-first')
+
